@@ -377,6 +377,35 @@ def rule_drop_metrics(text, dropped):
     return text
 
 
+def rule_for_tuple_pattern(text, dropped):
+    """`for (a, b) in EXPR {`  =>  `for verif_item in EXPR { let (a, b) = verif_item;` (Verus rejects
+    patterns in for heads; textbook desugaring, body verbatim)."""
+    while True:
+        toks, match = _stmt_tokens(text)
+        hit = None
+        for i, t in enumerate(toks):
+            if t.kind == 'ident' and t.text == 'for' and i + 1 < len(toks) and toks[i + 1].text == '(':
+                c = match[i + 1]
+                if c + 1 < len(toks) and toks[c + 1].text == 'in':
+                    # body open
+                    k = c + 2
+                    while k < len(toks):
+                        if toks[k].text in ('(', '['):
+                            k = match[k] + 1
+                            continue
+                        if toks[k].text == '{':
+                            break
+                        k += 1
+                    hit = (toks[i + 1].s, toks[c].e, toks[k].e)
+                    break
+        if hit is None:
+            return text
+        ps, pe, bo = hit
+        pat = text[ps:pe]
+        dropped.append(('for-tuple-pattern', f'for {pat} in .. {{  =>  for verif_item in .. {{ let {pat} = verif_item;'))
+        text = text[:ps] + 'verif_item' + text[pe:bo] + f' let {pat} = verif_item;' + text[bo:]
+
+
 RULES = {
     'drop-tracing': rule_drop_tracing,
     'assert-eq': rule_assert_eq,
@@ -390,6 +419,7 @@ RULES = {
     'strip-attrs': rule_strip_attrs,
     'anon-lifetime': rule_anon_lifetime,
     'drop-metrics': rule_drop_metrics,
+    'for-tuple-pattern': rule_for_tuple_pattern,
 }
 
 
